@@ -142,7 +142,7 @@ def replay_fn(ctx, prop, fname, st):
         return 'other-property'      # disagreement without annotations: C01/C02's business
     bad = None
     # serialization clause: PACK bytes of the final stack must not depend on annotations (families whose values are pairs / combs)
-    base_packed = packed_slots(init, env, prog, None) if (st['status'] == 'running' and fname in ('comb', 'annot_keys', 'adt')) else None
+    base_packed = packed_slots(init, env, prog, None) if (st['status'] == 'running' and fname in ('comb', 'annot_keys', 'adt', 'annot_lambda')) else None
     if base_packed is not None:
         base_unp = unpacked_slots(init, env, prog, None)
         case = {'family': fname, 'init': to_json(init), 'env': to_json(env), 'hist': to_json(prog), 'status': st['status'], 'stack': to_json(st['stack']), 'failv': to_json(st['failv'])}
